@@ -9,7 +9,8 @@
 // `reduce`/`pshort`): uniformInt(lo,hi) = lo + raw % (hi-lo+1), uniformReal(lo,hi) = (hi-lo)*u + lo.
 //
 // protocol (header `pathops`), doubles as u64 bit patterns, a state = its leaf values:
-//   env <space> boxes <pdim> <k> (<lo>*pdim <hi>*pdim)*k res <fraction>         -> ok w=<leaf count>
+//   env <space> boxes <pdim> <k> (<lo>*pdim <hi>*pdim)*k res <fraction> [oneway <ylo> <yhi>]   -> ok w=<leaf count>
+//       (oneway: a direction-sensitive motion validator — inside the band ylo <= y <= yhi no motion may go in +x direction)
 //   path <n> <state>*n                                                          -> ok chk=<0/1>
 //   goals <m> <state>*m                                                         -> ok
 //   collapse <maxSteps> <maxEmpty> | rope <delta> <eqTol> | subdivide | interp | interpn <count>
@@ -103,10 +104,22 @@ public:
     RecMV(const ob::SpaceInformationPtr &si) : ob::MotionValidator(si), inner_(si), sp_(si->getStateSpace())
     {
     }
+    // optional ONE-WAY zone (direction-sensitive validity): inside the band ylo <= y <= yhi motions may not go in +x direction
+    bool oneway = false;
+    double ylo = 0, yhi = 0;
+    bool wrongWay(const ob::State *s1, const ob::State *s2) const
+    {
+        if (!oneway)
+            return false;
+        std::vector<double> a, b;
+        sp_->copyToReals(a, s1);
+        sp_->copyToReals(b, s2);
+        return b[0] > a[0] && std::min(a[1], b[1]) <= yhi && std::max(a[1], b[1]) >= ylo;
+    }
     bool checkMotion(const ob::State *s1, const ob::State *s2) const override
     {
         g_inCm = true;
-        bool r = inner_.checkMotion(s1, s2);
+        bool r = !wrongWay(s1, s2) && inner_.checkMotion(s1, s2);
         g_inCm = false;
         if (rec)
             log.push_back({vp::showState(sp_, s1), vp::showState(sp_, s2), r});
@@ -115,7 +128,7 @@ public:
     bool checkMotion(const ob::State *s1, const ob::State *s2, std::pair<ob::State *, double> &lv) const override
     {
         g_inCm = true;
-        bool r = inner_.checkMotion(s1, s2, lv);
+        bool r = !wrongWay(s1, s2) && inner_.checkMotion(s1, s2, lv);
         g_inCm = false;
         if (rec)
             log.push_back({vp::showState(sp_, s1), vp::showState(sp_, s2), r});
@@ -340,10 +353,21 @@ int main()
                 auto sp = vp::parseSpaceX(t, i);
                 vp::Env env;
                 env.parse(t, i);
-                if (i + 2 != t.size() || t[i] != "res")
+                if (i + 2 > t.size() || t[i] != "res")
                     throw vp::ParseError("res");
                 ++i;
                 double frac = vp::needF(t, i);
+                bool oneway = false;
+                double owLo = 0, owHi = 0;
+                if (i < t.size())
+                {
+                    if (t[i] != "oneway" || i + 3 != t.size())
+                        throw vp::ParseError("oneway");
+                    ++i;
+                    owLo = vp::needF(t, i);
+                    owHi = vp::needF(t, i);
+                    oneway = true;
+                }
                 c = Ctx();
                 c.space = sp;
                 c.si = std::make_shared<ob::SpaceInformation>(sp);
@@ -351,6 +375,9 @@ int main()
                 c.si->setStateValidityChecker(c.svc);
                 c.si->setStateValidityCheckingResolution(frac);
                 c.mv = std::make_shared<RecMV>(c.si);
+                c.mv->oneway = oneway;
+                c.mv->ylo = owLo;
+                c.mv->yhi = owHi;
                 c.si->setMotionValidator(c.mv);
                 c.si->setup();
                 {
